@@ -315,6 +315,27 @@ def run(ctx) -> None:
                 {"kind": "github-outside-cwd"},
                 {"cwd": "sub/", "argv": ["../f.py", "--format", "github", "--quiet"], "rc": rc, "stdout": out[:300], "stderr": err[-500:], "how": "mkdir sub; write f.py (`x = int(0)`); cd sub; python -m refurb ../f.py --format github"},
             )
+    # ---- the three renderings name the same FILE: also outside the working directory, in a sibling whose name starts like it
+    with core.scratch("rv-c13c-") as d3:
+        for rel in ("app/in.py", "app_tests/t.py", "apple/u.py", "other/v.py"):
+            (d3 / rel).parent.mkdir(parents=True, exist_ok=True)
+            (d3 / rel).write_text("x = int(0)\ny = list()\n")
+        (d3 / "app" / "pyproject.toml").write_text("")
+        cwd3 = d3 / "app"
+        argv3 = ["in.py", "../app_tests/t.py", "../apple/u.py", "../other/v.py", "--quiet"]
+        rc_p, out_p, err_p = core.refurb_cli(argv3, cwd=cwd3)
+        rc_g, out_g, err_g = core.refurb_cli([*argv3, "--format", "github"], cwd=cwd3)
+        tp3, _, _ = parse_rendering("plain", out_p.rstrip("\n"))
+        tg3, _, _ = parse_rendering("github", out_g.rstrip("\n"))
+        res.case(("e2e", "github-sibling-prefix"))
+        norm = lambda ts: sorted((str((cwd3 / t[0]).resolve()), *t[1:]) for t in ts)  # noqa: E731
+        if err_p.strip() or err_g.strip() or not tp3 or norm(tp3) != norm(tg3):
+            res.violate(
+                "plain and GitHub renderings name different files for a file outside the working directory (sibling directory with a common name prefix)",
+                {"kind": "formats-disagree", "scenario": "github-sibling-prefix", "quiet": True, "sort": False},
+                {"tree": ["app/in.py", "app_tests/t.py", "apple/u.py", "other/v.py"], "cwd": "app/", "argv": argv3, "plain": [t[0] for t in tp3], "github": [t[0] for t in tg3], "stderr": (err_p or err_g)[-300:],
+                 "how": "each file is `x = int(0)\\ny = list()`; cd app; python -m refurb <argv> with and without --format github; resolve the printed file names against app/"},
+            )
     res.assumptions += [
         "colour is exercised through a pty (sys.stdout.isatty() true); ANSI SGR sequences are the only escapes refurb emits",
         "in the in-process correspondence GitHub paths are made relative with pathlib exactly as main.py does (the model takes the relative path as an input)",
